@@ -27,8 +27,9 @@ RULE = ("inputs per routine: Haar-random unitaries plus the measure-zero set (id
         "its input differs from a phase times the identity by > 1e-6; distinct by (section, rounded input matrix, options)")
 ASSUMPTIONS = [
     "cirq.unitary(op) of each returned operation is correct (policed by C03/C04); products are formed with numpy only",
-    "reconstruction tolerance: 100 x the documented atol (>= 1e-6) because the CZ / sqrt-iSWAP / MS pipelines threshold 20-30 "
-    "angles at atol each (observed up to 40 x atol on the unchanged tree); the 10 x atol band is counted as event 'recon>10atol'",
+    "reconstruction tolerance of the atol-parameterised synthesis routines: max(100 x atol, 1e-5); they threshold 20-30 angles at "
+    "atol each and near the iSWAP vertex lose a square root (observed up to 170 x atol on the unchanged tree at atol=1e-8); "
+    "the 10 x and 100 x atol bands of DESIGN 4.1 are counted as events 'recon>10atol' / 'recon>100atol' instead",
     "gate-count minimality is asserted only outside a grey band of [0.5, 2] x the routine's own Weyl tolerance around a class boundary",
     "KakDecomposition factor order is kron(ops[0], ops[1]) (first qubit = most significant), as used by its _unitary_/_decompose_",
     "rtol/atol-parameterised linalg helpers are held to 10 x (atol + rtol x scale)",
@@ -101,6 +102,8 @@ KAK_MECH = "C15:bidiagonalize_real_matrix_pair:rank-cut-splits-degenerate-singul
 KNOWN_MECHANISMS.add(KAK_MECH)
 SQISW_MECH = "C15:two_qubit_matrix_to_sqrt_iswap_operations:wrong-on-the-x=pi/4-face-when-atol<1e-9(canonicalisation-windows-differ)"
 KNOWN_MECHANISMS.add(SQISW_MECH)
+BIDIAG_VE_MECH = "C15:bidiagonalize_unitary:spurious-precondition-ValueError(internal-recheck-of-svd-rotated-block)"
+KNOWN_MECHANISMS.add(BIDIAG_VE_MECH)
 FSIM_MECH = "C15:decompose_two_qubit_interaction_into_four_fsim_gates:wrong-on-the-x=pi/4-face(z-sign-of-canonical-frames-differs)"
 KNOWN_MECHANISMS.add(FSIM_MECH)
 
@@ -108,7 +111,10 @@ KNOWN_MECHANISMS.add(FSIM_MECH)
 def _straddles(real_mat, atol):
     """Two numerically equal singular values of mat1 on either side of the rank cut `<= atol`."""
     s = np.linalg.svd(np.asarray(real_mat, dtype=float), compute_uv=False)
-    return any(s[i] > atol >= s[i + 1] and s[i] - s[i + 1] < 1e-9 for i in range(len(s) - 1))
+    # Cirq forms Mag^H U Mag with its own constants, so its singular values differ from these in the last bits: accept a
+    # numerically degenerate pair that touches the cut to 1e-6 relative; the re-evaluations below do the actual deciding
+    slack = 1e-6 * atol + 1e-16
+    return any(s[i] - s[i + 1] < 1e-9 and s[i] > atol - slack and s[i + 1] <= atol + slack for i in range(len(s) - 1))
 
 
 def _kak_explains(u, atol=1e-8, rtol=1e-5):
@@ -188,6 +194,8 @@ def _pick_atol(rng, case):
 def _note_recon(ctx, d, atol):
     if d > 10 * atol and d > 1e-9:
         ctx.event("recon>10atol")
+    if d > 100 * atol and d > 1e-9:
+        ctx.event("recon>100atol")
 
 
 # --------------------------------------------------------------------------- section: KAK and friends
@@ -310,8 +318,22 @@ def sec_linalg(ctx, rng, case):
             o = UW.random_orthogonal(rng, dm)
             mat = (o * lam) @ o.T
         label = "normal-unitary"
-    bl, bd, br = cirq.bidiagonalize_unitary_with_special_orthogonals(mat, check_preconditions=bool(rng.integers(2)))
-    vu = P.post_bidiagonalize_unitary(mat, bl, bd, br, P.lin_tol(1.0))
+    cp = bool(rng.integers(2))
+    try:
+        bl, bd, br = cirq.bidiagonalize_unitary_with_special_orthogonals(mat, check_preconditions=cp)
+    except ValueError as e:
+        # the input is unitary to 1e-14 by construction, so this documented rejection is spurious.  explained-by: the routine
+        # re-checks its own intermediate blocks (symmetry / commutation of an SVD-rotated block) with atol 1e-8; without the
+        # re-check the very same input is bidiagonalised correctly.
+        mech = "C15:bidiagonalize_unitary:ValueError-on-valid-unitary"
+        if cp and ("symmetric" in str(e) or "commute" in str(e)):
+            l2, d2, r2 = cirq.bidiagonalize_unitary_with_special_orthogonals(mat, check_preconditions=False)
+            if all(ok for _, _, ok, _ in P.post_bidiagonalize_unitary(mat, l2, d2, r2, P.lin_tol(1.0))):
+                mech = BIDIAG_VE_MECH
+        _emit(ctx, [("bidiagonalize_unitary:diagonal", mech, False, "ValueError(%s) for a matrix that is unitary to %.1g" %
+                     (e, L.maxdiff(mat @ mat.conj().T, np.eye(len(mat)))))], mat=mat, label=label)
+        bl = None
+    vu = P.post_bidiagonalize_unitary(mat, bl, bd, br, P.lin_tol(1.0)) if bl is not None else []
     if any(not ok for _, _, ok, _ in vu) and _straddles(np.real(mat), 1e-8):
         l2, d2, r2 = cirq.bidiagonalize_unitary_with_special_orthogonals(mat, atol=1e-6, check_preconditions=False)
         if all(ok for _, _, ok, _ in P.post_bidiagonalize_unitary(mat, l2, d2, r2, P.lin_tol(1.0))):
@@ -912,12 +934,12 @@ def sec_misc(ctx, rng, case):
 
 
 SECTIONS = [
-    ("kak", sec_kak, 7000, 100000, 12.0),
-    ("linalg", sec_linalg, 14000, 200000, 3.0),
-    ("oneq", sec_oneq, 14000, 200000, 2.0),
-    ("cz", sec_cz, 6000, 80000, 9.0),
-    ("sqrt_iswap", sec_sqrt_iswap, 5000, 70000, 6.0),
-    ("other2q", sec_other2q, 6000, 80000, 8.0),
-    ("multiq", sec_multiq, 2400, 20000, 14.0),
-    ("misc", sec_misc, 10000, 140000, 3.0),
+    ("kak", sec_kak, 7000, 85000, 12.0),
+    ("linalg", sec_linalg, 14000, 170000, 3.0),
+    ("oneq", sec_oneq, 14000, 170000, 2.0),
+    ("cz", sec_cz, 6000, 68000, 9.0),
+    ("sqrt_iswap", sec_sqrt_iswap, 5000, 60000, 6.0),
+    ("other2q", sec_other2q, 6000, 68000, 8.0),
+    ("multiq", sec_multiq, 2400, 17000, 14.0),
+    ("misc", sec_misc, 10000, 120000, 3.0),
 ]
